@@ -196,6 +196,16 @@ func newWorld(run *simkit.Run, plan *simkit.Plan, o worldOpts) *world {
 		if o.pingMs > 0 {
 			cfg.MonitorPingInterval = time.Duration(o.pingMs) * time.Millisecond
 		}
+		if plan.Seed%2 == 0 {
+			// the daemon never uses a configuration as it was built: after loading it,
+			// it overlays the environment (LoadJSONFileAndEnv), which writes every field
+			// out to the JSON form and reads it back
+			if err := cfg.ApplyEnvVars(); err != nil {
+				run.Probe("config_env_overlay_rejected")
+			} else {
+				run.Probe("config_passed_through_env_overlay")
+			}
+		}
 		n.cfg = cfg
 		n.cons = simkit.NewModelConsensus(w.sh, n.id)
 		n.mon = simkit.NewModelMonitor(run, fmt.Sprintf("mon%d", i), nil)
